@@ -30,7 +30,10 @@ ASSUMPTIONS = {
             "tagged fields: kafka-go declares none, so canonical frames carry none in the round-trip direction; decode-only vectors carry Kafka's tagged fields and unknown ones",
             "driver B (requests written by the hand-written Conn codec) covers what is reachable from outside the package: Conn's exported methods, kafka.ConsumerGroup "
             "(group APIs) and Dialer.SASLMechanism PLAIN (SASL APIs), against fake brokers advertising version ranges with lowest version 0; Conn.listGroups "
-            "(ListGroups v1) has no exported caller and the Conn codec has no DescribeGroups writer, so these two are not exercised; record sets inside Produce "
+            "(ListGroups v1) has no exported caller and the Conn codec has no DescribeGroups writer, so these two are not exercised; brokers advertising less than "
+            "the Conn implements (or not advertising the API) are exercised for the APIs whose version the Conn negotiates (Produce, Fetch, Metadata via ReadPartitions, "
+            "JoinGroup), not for the versions it hard-codes (ListOffsets v1, Metadata v1 of Brokers/Controller, OffsetCommit v2, OffsetFetch v1, the v0-only group APIs) "
+            "nor for unadvertised APIs whose lowest implemented version is 0 (CreateTopics, DeleteTopics, SaslHandshake): VERIF_C04_PROBE=1 adds those as a diagnostic; record sets inside Produce "
             "requests are opaque blobs with a checked length prefix (their content is C05); the bare token after a SaslHandshake v0 is judged for framing only"],
     "C20": ["allocation is measured as the growth of runtime.MemStats.TotalAlloc around protocol.ReadResponse in a child process under GOMEMLIMIT and an address-space limit",
             "the bound is 64 x (bytes received) + 512 KiB (well-formed frames of these sizes stay below 160 KiB: 64 KiB buffer pages)"],
@@ -267,6 +270,9 @@ CONN_DESYNC = {"header-truncated", "api-key-unknown", "version-unknown", "stray-
 def conn_drive(ctx, d, tier, tag, only=None):
     cp, lp = os.path.join(d, "conns-%s.ndjson" % tag), os.path.join(d, "connlog-%s.ndjson" % tag)
     args = ["connwire", "-tier", tier, "-out", cp, "-log", lp, "-par", "8"] + (["-only", only] if only else [])
+    if os.environ.get("VERIF_C04_PROBE"):
+        # diagnostic only (not part of the check): the versions the Conn hard-codes, against a broker that advertises less
+        args.append("-probe")
     p = ctx.run_vh(args, timeout=900)
     if p.returncode != 0:
         raise Inconclusive("vh connwire failed: " + (p.stderr or p.stdout)[-1500:])
@@ -414,6 +420,10 @@ def run_conn_codec(ctx, d, msgs, tier):
            "bytes": sum(len(c["stream"]) for c in conns), "frames_by_api_version": dict(sorted(per.items())),
            "library_calls": sum(l["calls"] for l in logs), "library_calls_returning_an_error": sum(l["nerr"] for l in logs),
            "advertised_maxima_per_scenario": "Produce 2..7, Fetch 2..10, Metadata 1..6, CreateTopics 0..2, DeleteTopics 0..1, JoinGroup 1..2, SaslHandshake 0..1 (lowest always 0)",
+           # brokers that advertise, for an API whose version the Conn negotiates, less than the lowest version the Conn implements
+           # (Produce 0/1, Fetch 0/1, Metadata 0, JoinGroup 0) or not at all: the calls must fail without writing a frame of that API
+           "old_broker_scenarios": len([l for l in logs if l["scenario"].startswith("low-")]),
+           "old_broker_calls_refused_by_the_client": sum(1 for l in logs if l["scenario"].startswith("low-") for e in l["errs"] if "no matching versions" in e),
            "not_exercised": CONN_UNREACHABLE + ["%s v%d" % (apiname.get(k, k), v) for k, v in missing], "driver_runs": attempts,
            "violation_groups": viol_keys, "samples": samples}
     return cov, nframes - len(bad), sum(r["chk"]["distinct"] for r in results), sum(r["chk"]["generated"] for r in results)
